@@ -17,6 +17,7 @@ pub mod c08;
 pub mod cx;
 pub mod cy;
 pub mod c20;
+pub mod c20i;
 pub mod c18;
 pub mod c04;
 pub mod c16;
